@@ -854,6 +854,9 @@ func (t *trzszTransfer) pipelineRecvBinaryData() ([]byte, *time.Time, error) {
 	if size == 0 {
 		return []byte{}, beginTime, nil
 	}
+	if size < 0 || size > t.maxDataSize() {
+		return nil, nil, simpleTrzszError("Invalid data size: %d", size)
+	}
 
 	data, err := t.buffer.readBinary(int(size), t.getNewTimeout())
 	if err != nil {
